@@ -5,3 +5,4 @@ import FlVerif.Props.C12
 import FlVerif.Props.C20
 import FlVerif.Props.C18
 import FlVerif.Props.C01
+import FlVerif.Props.C02
